@@ -1236,8 +1236,16 @@ class Flatten(DomainMapping):
             inner_iter = [inner]
         else:
             inner_iter = inner
+        occurrences = {}
         for inner_v in inner_iter:
-            yield HashedValue(inner_v)
+            hashed_value = HashedValue(inner_v)
+            occurrence = occurrences.get(hashed_value.id_, 0)
+            occurrences[hashed_value.id_] = occurrence + 1
+            if occurrence:
+                # The same object listed again is a row of its own (UNNEST), give that occurrence its own identity such
+                # that de-duplication and result caches do not merge it with the first one.
+                hashed_value = HashedValue(hashed_value.value, id_=hash((hashed_value.id_, occurrence)))
+            yield hashed_value
 
     @property
     @lru_cache(maxsize=None)
